@@ -188,6 +188,17 @@ func (ic *ImageConfiguration) readLocal(imageconfigPath string, includePaths []s
 //
 // Deprecated: This will be removed in a future release.
 func (ic *ImageConfiguration) Load(ctx context.Context, imageConfigPath string, includePaths []string, configHasher hash.Hash) error {
+	// A configuration may include another one, and so on; a file that (directly or
+	// through others) includes itself would be loaded forever.
+	chain, _ := ctx.Value(includeChainKey{}).([]string)
+	resolvedPath, err := paths.ResolvePath(imageConfigPath, includePaths)
+	if err == nil {
+		if slices.Contains(chain, resolvedPath) {
+			return fmt.Errorf("include cycle: %s is included again by %s", resolvedPath, chain[len(chain)-1])
+		}
+		ctx = context.WithValue(ctx, includeChainKey{}, append(slices.Clone(chain), resolvedPath))
+	}
+
 	data, err := ic.readLocal(imageConfigPath, includePaths)
 	if err != nil {
 		return err
@@ -195,6 +206,9 @@ func (ic *ImageConfiguration) Load(ctx context.Context, imageConfigPath string, 
 
 	return ic.parse(ctx, data, includePaths, configHasher)
 }
+
+// includeChainKey is the context key of the files being loaded, outermost first.
+type includeChainKey struct{}
 
 // Do preflight checks and mutations on an image configuration.
 func (ic *ImageConfiguration) Validate() error {
